@@ -31,7 +31,7 @@ def main(argv):
     cap = float(os.environ.get('VERIF_TIME_CAP', '0')) or (
         240.0 if tier == 'quick' else 3000.0
     )
-    shrink_s = 60.0 if tier == 'quick' else 240.0
+    shrink_s = 25.0 if tier == "quick" else 180.0
     deadline = t0 + cap
     result = {'ok': False}
     try:
